@@ -514,10 +514,11 @@ class Plugin:
                         )
                     # If any of the inputs were trimmed due to early splits,
                     # trim the others too.
-                    # In very hairy cases this can take multiple passes.
-                    # can we optimize this, or code it more elegantly?
-                    max_passes_left = 10
-                    while max_passes_left > 0:
+                    # In very hairy cases this can take multiple passes
+                    # (e.g. a staircase of interleaved rows of two kinds).
+                    # Each pass moves the common end to an earlier time,
+                    # and at the start of the inputs all ends agree.
+                    while True:
                         all_ends = [x.end for x in inputs.values()]
                         this_chunk_end = min(all_ends + [this_chunk_end])
                         if len(set(all_ends)) <= 1:
@@ -530,13 +531,6 @@ class Plugin:
                                 [back_to_buffer, self.input_buffer[d]],
                                 self.allow_superrun,
                             )
-                        max_passes_left -= 1
-                    else:
-                        raise RuntimeError(
-                            f"{self} was unable to get time-consistent "
-                            f"inputs after ten passess. Inputs: \n{inputs}\n"
-                            f"Input buffer:\n{self.input_buffer}"
-                        )
 
                     # Merge inputs of the same kind
                     inputs_merged = {
